@@ -81,7 +81,7 @@ class MeshLine1(MeshSimplex, Mesh):
     def _adaptive(self, marked):
         p, t = self.doflocs, self.t
         # an element listed twice is still split once
-        marked = np.unique(marked)
+        marked = np.unique(marked).astype(np.int32)
 
         mid = range(len(marked)) + np.max(t) + 1
         nonmarked = np.setdiff1d(np.arange(t.shape[1]), marked)
